@@ -51,8 +51,35 @@ def _fresh_space(gi, kind):
     return bempp_cl.api.function_space(g, *{"P1": ("P", 1), "DP0": ("DP", 0), "DP1": ("DP", 1)}[kind])
 
 
+class _PerturbedGlobals(object):
+    """While the oracle runs, the *global* quadrature orders are set to values different from the explicit ones it passes: an explicit
+    parameter object that is silently dropped somewhere (and replaced by the global one) then shows up as a difference."""
+
+    def __init__(self, eff_reg, eff_sing=None):
+        self.reg = 5 if eff_reg != 5 else 3
+        self.sing = 5 if eff_sing != 5 else 3
+
+    def __enter__(self):
+        import bempp_cl.api
+
+        q = bempp_cl.api.GLOBAL_PARAMETERS.quadrature
+        self.saved = (q.regular, q.singular)
+        q.regular, q.singular = self.reg, self.sing
+
+    def __exit__(self, *a):
+        import bempp_cl.api
+
+        q = bempp_cl.api.GLOBAL_PARAMETERS.quadrature
+        q.regular, q.singular = self.saved
+
+
 def _oracle_matrix(step, eff):
-    """Stateless recomputation: fresh grids/spaces, explicit fresh parameters, dense assembly."""
+    """Stateless recomputation: fresh grids/spaces, explicit fresh parameters, dense assembly (under perturbed global orders)."""
+    with _PerturbedGlobals(eff[0], eff[1]):
+        return _oracle_matrix_impl(step, eff)
+
+
+def _oracle_matrix_impl(step, eff):
     par = og.make_params(eff[0], eff[1])
     gi = step["grid"]
     if step["fam"] == "sparse":
@@ -86,6 +113,7 @@ class _World(object):
         self.par = bempp_cl.api.GLOBAL_PARAMETERS
         self.saved = (self.par.quadrature.regular, self.par.quadrature.singular, self.par.fmm.expansion_order, self.par.fmm.ncrit)
         self.events = []
+        self.pots = []
 
     def restore(self):
         (self.par.quadrature.regular, self.par.quadrature.singular, self.par.fmm.expansion_order, self.par.fmm.ncrit) = self.saved
@@ -110,6 +138,9 @@ def check_history(desc):
     steps = []
     for st_ in desc["steps"]:
         steps.append(st_)
+        if st_.get("op") == "potential" and st_.get("then_quad"):
+            # a global order change right after a potential operator was created and evaluated (it is evaluated again at the end)
+            steps.append({"op": "set_quad", "reg": st_["then_quad"][0], "sing": st_["then_quad"][1]})
         if st_.get("op") == "create" and st_.get("then"):
             steps.append({"op": st_["then"], "slot": st_["slot"]})
         if st_.get("op") == "create" and st_.get("later"):
@@ -273,7 +304,10 @@ def check_history(desc):
                 expl = "explicit" if pobj is not None else "global"
                 asm = st["assembler"]
                 try:
-                    got = og.potential_operator(st["fam"], st["opn"], sp, X, k, parameters=pobj, assembler=asm).evaluate(bempp_cl.api.GridFunction(sp, coefficients=c))
+                    pot_op = og.potential_operator(st["fam"], st["opn"], sp, X, k, parameters=pobj, assembler=asm)
+                    pot_gf = bempp_cl.api.GridFunction(sp, coefficients=c)
+                    got = pot_op.evaluate(pot_gf)
+                    W.pots.append((pot_op, pot_gf, np.array(got, copy=True), si, asm, expl))
                 except Exception as exc:  # noqa: BLE001
                     from vlib.pbt import crash_signature
 
@@ -286,8 +320,9 @@ def check_history(desc):
                         continue
                     _fail(sig_, msg_)
                 t = _fresh_space(st["grid"], st["space"])
-                want = og.potential_operator(st["fam"], st["opn"], t, X, k, parameters=og.make_params(eff, 4), assembler="dense").evaluate(
-                    bempp_cl.api.GridFunction(t, coefficients=c))
+                with _PerturbedGlobals(eff):
+                    want = og.potential_operator(st["fam"], st["opn"], t, X, k, parameters=og.make_params(eff, 4), assembler="dense").evaluate(
+                        bempp_cl.api.GridFunction(t, coefficients=c))
                 err = og.relerr(got, want)
                 if err > (1e-9 if asm == "fmm" else 1e-12):
                     mism = "order_mismatch" if eff != W.par.quadrature.regular else "order_match"
@@ -300,6 +335,20 @@ def check_history(desc):
                         continue
                     _fail(sig_, msg_)
                 labels.append("potential_" + asm)
+        # final invariant: a potential operator evaluated again after all later steps (global parameter changes, cache clears, other
+        # assemblies) returns what it returned the first time
+        for pot_op, pot_gf, first, si0, asm, expl in W.pots:
+            try:
+                again = pot_op.evaluate(pot_gf)
+            except Exception as exc:  # noqa: BLE001
+                if asm == "fmm":
+                    continue  # FMM potentials after cache clears / parameter changes are covered by the D12/D13 classes above
+                raise
+            tolp = 1e-9 if asm == "fmm" else 1e-13
+            if og.relerr(again, first) > tolp:
+                _fail(f"potential_reevaluation/{asm}/{expl}", f"potential operator created at step {si0} returns a different value when evaluated again at the end of "
+                      f"the history (rel. diff {og.relerr(again, first):.2e}; global regular order now {W.par.quadrature.regular})")
+            labels.append("potential_reevaluated")
         # final invariant: every assembled result still equals its first value
         for slot, ent in W.slots.items():
             if ent["first"] is not None and ent["step"]["assembler"] != "fmm":
@@ -363,7 +412,7 @@ def strategy(spec):
                 return d
             d["opn"] = draw(st.sampled_from(spec.get("ops", ["V", "K", "Kp", "W"])))
             d["spaces"] = ["P1", "P1"] if d["opn"] == "W" else list(draw(st.sampled_from(pairs)))
-            d["k"] = None if fam == "laplace" else ([1.2, 0] if fam == "modified" else draw(st.sampled_from([[1.0, 0], [1.5, 0.5]])))
+            d["k"] = None if fam == "laplace" else ([1.2, 0] if fam == "modified" else draw(st.sampled_from([[1.0, 0], [1.5, 0.5], [0, 1.3]])))
             d["assembler"] = draw(st.sampled_from(["dense", "fmm", "fmm"])) if use_fmm else "dense"
             if d["assembler"] == "dense":
                 d["precision"] = draw(st.sampled_from([None, None, "single"] if spec.get("single", True) else [None]))
@@ -386,7 +435,8 @@ def strategy(spec):
         st.fixed_dictionaries({"op": st.just("potential"), "fam": st.sampled_from([f for f in fams if f != "sparse"] or ["laplace"]),
                                "opn": st.sampled_from([o for o in spec.get("ops", ["V", "K"]) if o in ("V", "K")] or ["V"]), "grid": st.integers(0, 1), "space": st.sampled_from(kinds1),
                                "k": st.just(None), "assembler": st.sampled_from(["dense", "fmm"] if use_fmm else ["dense"]),
-                               "params": st.one_of(st.none(), st.tuples(orders).map(list))}).map(_fix_pot),
+                               "params": st.one_of(st.none(), st.none(), st.tuples(orders).map(list)),
+                               "then_quad": st.one_of(st.none(), st.tuples(orders, orders).map(list))}).map(_fix_pot),
     )
     return st.fixed_dictionaries({"steps": st.lists(step, min_size=4, max_size=14)})
 
